@@ -215,6 +215,36 @@ pub fn adjust(cfg: &mut SwarmCfg, tier: &str, r: &mut Prng) {
             setw(cfg, "commit", 14);
             setw(cfg, "crash", 0);
         }
+        "C12" => {
+            cfg.oracles = sv(&["agreement", "codec"]);
+            cfg.faults = sv(&["C-FLIP", "C-TRUNC", "C-LEN-HUGE", "C-LEN-NONMINIMAL", "C-DISCRIMINANT", "C-TAIL", "C-RANDOM", "S-FLIP", "N-RACE"]);
+            cfg.knobs.push(("codec-mutations".into(), 6));
+            cfg.knobs.push(("psk".into(), 1));
+            cfg.knobs.push(("detached".into(), 5));
+            cfg.knobs.push(("ext-sender".into(), 1));
+            cfg.knobs.push(("no-gce".into(), 1));
+            cfg.storage = *r.pick(&[StorageKind::Mem, StorageKind::Sql]);
+            setw(cfg, "sflip", 5);
+            setw(cfg, "write", 10);
+            setw(cfg, "observe", 2);
+            setw(cfg, "obs_feed", 8);
+            setw(cfg, "obs_snapshot", 3);
+            setw(cfg, "apply_detached", 6);
+            setw(cfg, "crash", 0);
+            if r.chance(1, 12) {
+                // trees and messages beyond the 16 KiB varint boundary
+                cfg.scenario = "large-values".into();
+                cfg.n_parties = r.range(60, 80) as usize;
+                cfg.steps = 140;
+                cfg.knobs.push(("grow".into(), 1));
+                cfg.knobs.retain(|k| k.0 != "codec-mutations");
+                cfg.knobs.push(("codec-mutations".into(), 2));
+                setw(cfg, "commit", 40);
+                setw(cfg, "send_app", 2);
+                setw(cfg, "propose", 2);
+                setw(cfg, "observe", 0);
+            }
+        }
         "C06" => {
             cfg.oracles = sv(&["agreement", "restore"]);
             cfg.faults = sv(&["P-CRASH", "N-REORD", "N-DUP", "N-RACE", "N-STALE", "crash-with-pending"]);
@@ -274,6 +304,9 @@ pub fn extra_kinds(w: &World, kinds: &mut Vec<(&'static str, u32)>) {
     }
     if w.cfg.weight("byz") > 0 && w.live_members(g).len() >= 2 {
         kinds.push(("byz", w.cfg.weight("byz")));
+    }
+    if w.cfg.weight("sflip") > 0 && !w.live_members(g).is_empty() {
+        kinds.push(("sflip", w.cfg.weight("sflip")));
     }
     if w.cfg.weight("branch") > 0 && w.live_members(g).len() >= 2 && w.groups[g].reinit_at.is_none() {
         kinds.push(("branch", w.cfg.weight("branch")));
@@ -395,6 +428,16 @@ pub fn extra_action(w: &mut World, kind: &str) -> Option<Action> {
                 m,
             })
         }
+        "sflip" => {
+            let live = w.live_members(g);
+            let p = *w.prng.pick(&live);
+            Some(Action::Special {
+                kind: "sflip".into(),
+                a: p as u64,
+                b: w.prng.next_u64(),
+                c: g as u64,
+            })
+        }
         "branch" => {
             let live = w.live_members(g);
             let p = *w.prng.pick(&live);
@@ -514,6 +557,17 @@ pub fn extra_action(w: &mut World, kind: &str) -> Option<Action> {
 pub fn adjust_commit(w: &mut World, _p: usize, _g: usize, spec: &mut CommitSpec) {
     if w.cfg.knob("no-gce").is_some() {
         spec.gce = None;
+    }
+    if w.cfg.knob("grow").is_some() {
+        let n = w.parties.len();
+        let latest = w.groups[_g].log.len() as u64;
+        let members: Vec<usize> = w.groups[_g].members.get(&latest).map(|m| m.keys().copied().collect()).unwrap_or_default();
+        let outs: Vec<usize> = (0..n)
+            .filter(|q| !members.contains(q) && matches!(w.mem_ref(*q, _g).map(|m| m.status.clone()).unwrap_or(Status::Never), Status::Never))
+            .take(6)
+            .collect();
+        spec.adds = outs;
+        spec.removes.clear();
     }
     if w.cfg.knob("reinit").is_some() {
         let latest = w.groups[_g].log.len();
